@@ -1608,7 +1608,7 @@ skip_digit_separator(int c) {
   get();
   c = peek();
 
-  if (isdigit(c)) {
+  if (isxdigit(c)) {
     return c;
   }
 
